@@ -1,11 +1,21 @@
-def _j(name, entry, props, what, **kw):
-    d = dict(name="msg." + name, props=props, kind="B", harness="h_msg.c", entry=entry, contracts=["common.h"], loops=False,
-             cbmc_flags=["--unwind", "40", "--unwinding-assertions"], timeout=3000, cost=80, mem_gb=30, what=what,
-             bound="messages of 1..2 units from a menu of 8 unit spellings (absolute, relative, common, with parameter, undefined) over a 6-entry command table; lexer/matcher/string loops unwound 40 with unwinding assertions")
-    d.update(kw)
-    return d
-JOBS = [
- _j("dispatch", "h_msg_dispatch", ["C02", "C06", "C05"], "whole library on one symbolic message: handler sequence, parameters, -113, framed output == statement"),
- _j("chunking", "h_msg_chunking", ["C08"], "same stream in one call vs split at every point: identical trace and remainder"),
- _j("isolation", "h_msg_isolation", ["C09"], "message B after message A vs B on a fresh context: identical trace"),
-]
+# Message-level bounded layer: unit selections enumerated per job (all pairs of the 8-entry menu, plus triples
+# that exercise two consecutive relative headers), everything else symbolic inside CBMC.
+import itertools
+NM = 8
+SELS = [(a,) for a in range(NM)] + list(itertools.product(range(NM), repeat=2))
+SELS += [(0, 2, 2), (1, 2, 2), (5, 2, 2), (0, 2, 4), (4, 2, 2), (0, 7, 2), (3, 2, 2), (0, 3, 2), (6, 2, 0), (2, 2, 2)]
+def _j(kind, entry, props, what, sel):
+    tag = "".join(str(x) for x in sel)
+    return dict(name="msg.%s.%s" % (kind, tag), props=props, kind="B", harness="h_msg.c", entry=entry, contracts=["common.h"], loops=False,
+        defines=["SELS=" + ",".join(str(x) for x in sel), "NSEL=%d" % len(sel)],
+        cbmc_flags=["--unwind", "44", "--unwinding-assertions"], timeout=1200, cost=5, mem_gb=12, what=what,
+        bound="one message built from menu entries %s (menu of 8 unit spellings: absolute, relative, common, with parameter, two items, undefined) over a 6-entry command table; split point / handler values symbolic; loops unwound 44 with unwinding assertions" % (list(sel),))
+JOBS = []
+for sel in SELS:
+    JOBS.append(_j("dispatch", "h_msg_dispatch", ["C02", "C06", "C05"], "whole library on one message: handler sequence, parameters, -113, framed output == statement", sel))
+for sel in SELS:
+    if len(sel) >= 2:
+        JOBS.append(_j("chunking", "h_msg_chunking", ["C08"], "stream (this message + one more) in one call vs split at every point: identical trace and remainder", sel))
+for sel in SELS:
+    if len(sel) == 2 and sel[0] <= sel[1]:
+        JOBS.append(_j("isolation", "h_msg_isolation", ["C09"], "message B after message A vs B on a fresh context: identical trace", sel))
